@@ -335,6 +335,16 @@ def judge(spec, result, baselines):
     results = result["actors"][0]
     viols = []
     seen = {}
+    def relabel(v, *outs):
+        # a difference that consists of the marker a 'mutate' operation appended: the
+        # caller edited an AST it had been given and a *later* result contains the edit
+        for o in outs:
+            if o and "__caller_edit__" in (o.get("full") or o.get("head") or ""):
+                v["kind"] = "history:after-caller-edit"
+                v["detail"] += " (the caller had edited a list of an AST returned earlier; that list is shared with this result)"
+                break
+        return v
+
     for i, (op, r) in enumerate(zip(ops, results)):
         if r.get("shared_nodes"):
             viols.append({"kind": "shared-nodes", "op": i, "detail": "%d node objects of the returned AST were already part of an AST returned by an earlier call" % r["shared_nodes"]})
@@ -354,9 +364,9 @@ def judge(spec, result, baselines):
                 continue
         fr = r.get("fresh")
         if fr is not None and not same_outcome(fr, bo):
-            viols.append({"kind": "history:via-module", "op": i, "detail": "brand-new instance in the used process differs from pristine process", "got": _short(fr), "want": _short(bo)})
+            viols.append(relabel({"kind": "history:via-module", "op": i, "detail": "brand-new instance in the used process differs from pristine process", "got": _short(fr), "want": _short(bo)}, fr))
         elif not same_outcome(r["out"], bo):
-            viols.append({"kind": "history:via-instance", "op": i, "detail": "reused instance differs from brand-new instance", "got": _short(r["out"]), "want": _short(bo), "first_diff": _first_diff(r["out"], bo)})
+            viols.append(relabel({"kind": "history:via-instance", "op": i, "detail": "reused instance differs from brand-new instance", "got": _short(r["out"]), "want": _short(bo), "first_diff": _first_diff(r["out"], bo)}, r["out"]))
         elif op["op"] in ("parse", "parse_file") and op.get("obj", "P1") != "P0" and r["out"]["k"] != "rec" and bo["k"] != "rec" and not r.get("fault_fired") and r.get("tokhash") != b.get("tokhash"):
             viols.append({"kind": "history:tokens", "op": i, "detail": "token stream delivered to the parser differs from a brand-new instance", "first_diff": _first_tok_diff(r.get("toklog"), b.get("toklog"))})
         key = op_key(op)
